@@ -1,5 +1,130 @@
-import Rtcm.Model.Names
-import Rtcm.Model.Socket
+import Rtcm.Model.WF
+import Rtcm.Lemmas.Decode
 import Rtcm.Gen.Tables
+/-
+  C15 — identity is the transmitted message number; unknown types are preserved.
+-/
 namespace Rtcm
+
+abbrev T15 := Rtcm.Gen.tables
+
+/-- For every 12-bit message number other than 4076 the identity is that number, whatever the low
+    four bits of the second byte and the remaining payload are. -/
+theorem C15_identity_number (n x : Nat) (hn : n < 4096) (hx : x < 16) (hne : n ≠ 4076) (rest : Bytes) :
+    identity (UInt8.ofNat (n / 16) :: UInt8.ofNat (n % 16 * 16 + x) :: rest) = .ok ⟨n, none⟩ := by
+  unfold identity
+  have h0 : (UInt8.ofNat (n / 16)).toNat = n / 16 := by
+    simp [UInt8.toNat_ofNat]; omega
+  have h1 : (UInt8.ofNat (n % 16 * 16 + x)).toNat = n % 16 * 16 + x := by
+    simp [UInt8.toNat_ofNat]; omega
+  simp only [h0, h1]
+  have : n / 16 * 16 + (n % 16 * 16 + x) / 16 = n := by omega
+  rw [this, if_neg hne]
+
+/-- For 4076 and every 8-bit sub-type the identity is (4076, sub-type): the sub-type sits in the
+    low bit of byte 1 and the top seven bits of byte 2 (after the 3-bit version `v`). -/
+theorem C15_identity_4076 (sub v y : Nat) (hs : sub < 256) (hv : v < 8) (hy : y < 2) (rest : Bytes) :
+    identity (UInt8.ofNat 254 :: UInt8.ofNat (0xC0 + v * 2 + sub / 128) :: UInt8.ofNat (sub % 128 * 2 + y) :: rest)
+      = .ok ⟨4076, some sub⟩ := by
+  unfold identity
+  have h0 : (UInt8.ofNat 254).toNat = 254 := by decide
+  have h1 : (UInt8.ofNat (0xC0 + v * 2 + sub / 128)).toNat = 0xC0 + v * 2 + sub / 128 := by
+    simp [UInt8.toNat_ofNat]; omega
+  have h2 : (UInt8.ofNat (sub % 128 * 2 + y)).toNat = sub % 128 * 2 + y := by
+    simp [UInt8.toNat_ofNat]; omega
+  simp only [h0, h1]
+  have e : 254 * 16 + (0xC0 + v * 2 + sub / 128) / 16 = 4076 := by omega
+  rw [e, if_pos rfl, h2]
+  have : (192 + v * 2 + sub / 128) % 2 * 128 + (sub % 128 * 2 + y) / 2 = sub := by omega
+  rw [this]
+
+/-- the rendered identity is the decimal message number, suffixed `_` and the three-digit sub-type -/
+theorem C15_identity_string_examples :
+    (⟨1005, none⟩ : Ident).str = [49, 48, 48, 53] ∧ (⟨4076, some 21⟩ : Ident).str = [52, 48, 55, 54, 95, 48, 50, 49]
+    ∧ (⟨7, none⟩ : Ident).str = [55] ∧ (⟨4076, some 201⟩ : Ident).str = [52, 48, 55, 54, 95, 50, 48, 49] := by
+  decide
+
+/-- Message numbers without a payload definition never cause an error: they yield a stub that
+    keeps the full payload, carries only DF002 = identity string, and serialises to the frame of
+    that payload. -/
+theorem C15_unknown_is_stub (T : Tables) (p : Bytes) (l : Nat) (id : Ident)
+    (hid : identity p = .ok id) (hnone : getDict T id = none) :
+    ∃ m, construct T (some p) l = .ok m ∧ m.payload = p ∧ m.unknown = true ∧ m.id = id
+      ∧ m.attrs = [(((T.special.df002).getD 0, []), .text id.str)] ∧ m.serialize T = frameOf T p := by
+  refine ⟨⟨p, l, id, true, [(((T.special.df002).getD 0, []), .text id.str)], true⟩, ?_, rfl, rfl, rfl, rfl, rfl⟩
+  simp [construct, hid, hnone]
+
+/-- every payload of at least two bytes (three for 4076) has an identity -/
+theorem C15_identity_total (b0 b1 b2 : UInt8) (rest : Bytes) :
+    (identity (b0 :: b1 :: b2 :: rest)).isOk = true := by
+  unfold identity
+  simp only
+  split <;> rfl
+
+theorem ismsmId_mem (T : Tables) (id : Ident) (h : ismsmId T id = true) : (id, true) ∈ T.msgids := by
+  unfold ismsmId at h
+  split at h
+  · rename_i e b hf
+    subst h
+    have hm := List.mem_of_find?_eq_some hf
+    have hp := List.find?_some hf
+    simp at hp
+    rw [← hp]
+    exact hm
+  · simp at h
+
+/-- in the regenerated message-id table, every entry flagged MSM lies in the block 1070–1229 -/
+theorem C15_msm_entries_in_block :
+    ∀ e ∈ T15.msgids, e.2 = true → (1070 ≤ e.1.num ∧ e.1.num ≤ 1229 ∧ e.1.sub = none) := by
+  decide +kernel
+
+/-- A message is reported as MSM for no number outside the MSM block 1070–1229 … -/
+theorem C15_ismsm_only_in_block (id : Ident) (h : ismsmId T15 id = true) :
+    1070 ≤ id.num ∧ id.num ≤ 1229 ∧ id.sub = none :=
+  C15_msm_entries_in_block (id, true) (ismsmId_mem T15 id h) rfl
+
+/-- … and for every implemented MSM1–MSM7 number of the seven constellations. -/
+theorem C15_ismsm_implemented : ∀ e ∈ T15.msm, ismsmId T15 e.1 = true := by decide +kernel
+
+/-- the implemented MSM numbers are exactly 1071–1077, 1081–1087, …, 1131–1137 -/
+theorem C15_msm_numbers : T15.msm.map (·.1.num) =
+    ([0, 1, 2, 3, 4, 5, 6].flatMap fun c => [1, 2, 3, 4, 5, 6, 7].map fun l => 1070 + 10 * c + l) := by
+  decide +kernel
+
+/-- dispatch finds a definition exactly for the identities listed in the three tables: every table
+    entry is reachable under its own identity (no entry is hidden by the string-range test, none is
+    shadowed by another table) -/
+theorem C15_dispatch_reaches_every_def : ∀ e ∈ T15.std ++ T15.msm ++ T15.igs, dispatchesTo T15 e.1 e.2 = true := by
+  decide +kernel
+
+def checkBelow (p : Nat → Bool) : Nat → Bool
+  | 0 => true
+  | n + 1 => p n && checkBelow p n
+
+theorem checkBelow_sound (p : Nat → Bool) (N : Nat) (h : checkBelow p N = true) : ∀ n, n < N → p n = true := by
+  induction N with
+  | zero => intro n hn; omega
+  | succ N ih =>
+    simp only [checkBelow, Bool.and_eq_true] at h
+    intro n hn
+    by_cases hN : n = N
+    · subst hN; exact h.1
+    · exact ih h.2 n (by omega)
+
+/-- the string-range test sends exactly the numbers 11, 12, 108–122 and 1070–1229 to the MSM table
+    (Python compares the identity *strings* with "1070" and "1229"); none of the short ones is an
+    MSM key, so they come out as stubs -/
+theorem C15_string_range (n : Nat) (hn : n < 4096) :
+    (lexLe [49, 48, 55, 48] (strNat n) && lexLe (strNat n) [49, 50, 50, 57])
+      = (n == 11 || n == 12 || (decide (108 ≤ n) && decide (n ≤ 122)) || (decide (1070 ≤ n) && decide (n ≤ 1229))) := by
+  have h : checkBelow (fun n => (lexLe [49, 48, 55, 48] (strNat n) && lexLe (strNat n) [49, 50, 50, 57])
+      == (n == 11 || n == 12 || (decide (108 ≤ n) && decide (n ≤ 122)) || (decide (1070 ≤ n) && decide (n ≤ 1229)))) 4096 = true := by
+    decide +kernel
+  have := checkBelow_sound _ 4096 h n hn
+  simpa using this
+
+/-- non-vacuity -/
+example : (match identity [0x3e, 0xd0, 0] with | .ok id => decide (id = ⟨1005, none⟩) | _ => false) = true := by decide
+example : (match identity [254, 0xC0, 42] with | .ok id => decide (id = ⟨4076, some 21⟩) | _ => false) = true := by decide
+
 end Rtcm
